@@ -14,7 +14,7 @@ from vlib.wire import normalise, same_json
 PROP = 'C16'
 MANIFEST = dict(
     text="Symbolic check of the real OpenAPI.schema / OpenRPC.schema generators: method sets of 1..2 (quick) / 1..3 (thorough) methods, annotation combinations (errors incl. a list SHARED between methods, tags, examples, summary / description, deprecated, servers, "
-         "component prefix), extractor stacks {Base, Docstring, Base+Docstring, Pydantic (concrete types only)}, endpoint prefix, 2 repeated generations; annotation STRINGS (summaries, descriptions, tag names, server urls, example names, OpenRPC error messages: a concrete per-method prefix + a symbolic suffix of length <= 1) "
+         "component prefix), one endpoint or two endpoint prefixes serving different methods under the same name, extractor stacks {Base, Docstring, Base+Docstring, Pydantic (concrete types only)}, endpoint prefix, 2 repeated generations; annotation STRINGS (summaries, descriptions, tag names, server urls, example names, OpenRPC error messages: a concrete per-method prefix + a symbolic suffix of length <= 1) "
          "and OpenRPC error codes (unbounded ints) are symbolic. Decided for all leaf values: generation does not raise; repeated generation yields the identical document; the user's objects (annotation lists incl. shared ones, method metadata) are deep-equal before/after; "
          "every registered method appears exactly once under '<path>#<name>' / name; what is annotated on one method does not occur in another method's entry; every $ref under #/components/schemas resolves; no UNSET survives and the document passes the specs JSON encoder.",
     ref='5 C16',
@@ -68,6 +68,10 @@ def obligations(tier):
             if tier == 'quick' and stack == 'pydantic' and (a, b) not in QUICK_PAIRS[:5]:
                 continue
             obs.append({'h': 'gen', 'kind': kind, 'stack': stack, 'ann': [a, b], 'prefix': '/api' if a != 'prefix' else ''})
+        if kind == 'openapi':
+            # two endpoint prefixes serving DIFFERENT methods under the SAME exposed name
+            for a, b in (('text', 'tags'), ('own_errors', 'none'), ('none', 'shared_errors'), ('examples', 'text'), ('tags', 'tags')):
+                obs.append({'h': 'gen', 'kind': kind, 'stack': stack, 'ann': [a, b], 'prefix': '/api', 'multi': True})
         if tier == 'thorough':
             for a, b, c in it.product(('shared_errors', 'text', 'tags'), ('shared_errors', 'own_errors', 'none'), ('examples', 'prefix', 'shared_errors')):
                 obs.append({'h': 'gen', 'kind': kind, 'stack': stack, 'ann': [a, b, c], 'prefix': '/api', 'reps': 3})
@@ -161,8 +165,9 @@ def h_gen(ob):
             return f'\u2603{i}\u2603' + env.str(name, 1)
 
         reg = pjrpc.server.MethodRegistry()
+        regs = []
         for i, a in enumerate(ob['ann']):
-            fn = _mk_method(i, with_doc, typed=(stack == 'pydantic'))
+            fn = _mk_method(0 if ob.get('multi') else i, with_doc, typed=(stack == 'pydantic'))
             kw = {}
             mk = []
             if a == 'shared_errors':
@@ -207,9 +212,18 @@ def h_gen(ob):
                 kw['component_name_prefix'] = 'Pfx' + str(i)
             if kw:
                 fn = mod.annotate(**kw)(fn)
-            reg.add(fn)
+            if ob.get('multi'):
+                regs.append(pjrpc.server.MethodRegistry())
+                regs[-1].add(fn)                 # every endpoint has its own 'method0'
+            else:
+                reg.add(fn)
             markers[i] = [m for m in mk]
-        methods = list(reg.values())
+        if ob.get('multi'):
+            methods = [list(r.values())[0] for r in regs]
+            methods_map = {f'/v{i}': [m] for i, m in enumerate(methods)}
+        else:
+            methods = list(reg.values())
+            methods_map = {'': methods}
         snap_users = copy.deepcopy(user_objects)
         snap_meta = [copy.deepcopy(getattr(m.method, '__pjrpc_meta__', {}).get(f'{kind}_spec')) for m in methods]
         # ---- generator ------------------------------------------------------------------------------
@@ -230,7 +244,7 @@ def h_gen(ob):
         docs = []
         try:
             for _ in range(ob.get('reps', 2)):
-                docs.append(spec.schema(ob['prefix'], {'': methods}))
+                docs.append(spec.schema(ob['prefix'], methods_map))
         except Exception as e:
             raise Violation('generation-raised:' + type(e).__name__, (ob['ann'], len(docs)))
         env.reached()
@@ -258,10 +272,20 @@ def h_gen(ob):
         names = [m.name for m in methods]
         if kind == 'openapi':
             keys = list(doc.get('paths', {}).keys())
-            want = [f"{ob['prefix']}#{n}" for n in names]
+            if ob.get('multi'):
+                want = [f"{ob['prefix']}/v{i}#{n}" for i, n in enumerate(names)]
+            else:
+                want = [f"{ob['prefix']}#{n}" for n in names]
             if sorted(keys) != sorted(want):
                 raise Violation('methods-not-described-exactly-once', (keys, want))
-            entries = {i: doc['paths'][f"{ob['prefix']}#{n}"] for i, n in enumerate(names)}
+            entries = {i: doc['paths'][w] for i, w in enumerate(want)}
+            # what was annotated on a method must show up in ITS entry (summary / description / tags / example name)
+            for i, ms in markers.items():
+                blob = _strings(entries[i], [])
+                for mkr in ms:
+                    pref = f'\u2603{i}\u2603'
+                    if not any(x.startswith(pref) for x in blob):
+                        raise Violation('own-annotation-missing-from-entry', (ob['ann'], i))
         else:
             listed = [m['name'] for m in doc.get('methods', [])]
             if sorted(listed) != sorted(names):
